@@ -189,7 +189,7 @@ def run_one(ctl: explorer.Ctl, cfg: Dict[str, Any]) -> Dict[str, Any]:
     if status != "ok":
         obs["outcome"] = status
         obs["violations"] = [{"sig": {"class": "did-not-finish", "status": status},
-                              "msg": f"cfg={cfg}: send_message did not complete: {status} {val!r}"}]
+                              "msg": f"cfg={cfg}: send_message did not complete: {status} {core.clean_repr(val)}"}]
         return obs
     (okind, oval), done = val
     obs.update({"outcome": okind, "done": round(done, 7)})
